@@ -361,23 +361,48 @@ func trimOWSRight(b []byte) []byte {
 	return b
 }
 
-// spacesForTabs returns b with every HTAB outside of quoted strings replaced by a space (on a copy, if there is one):
-// optional whitespace around ';' is *( SP / HTAB ), fasthttp.VisitHeaderParams skips spaces only
-func spacesForTabs(b []byte) []byte {
-	if bytes.IndexByte(b, '\t') == -1 {
+// cleanParams prepares the parameters of a media range for fasthttp.VisitHeaderParams, which skips spaces only and
+// stops at an empty parameter, while the grammar is parameters = *( OWS ";" OWS [ parameter ] ) with OWS = *( SP / HTAB ):
+// outside of quoted strings every HTAB becomes a space and a ";" that is followed by nothing but whitespace and the next
+// ";" (or the end) is dropped. b is returned as it is when there is nothing to do, a cleaned copy otherwise.
+func cleanParams(b []byte) []byte {
+	dirty := bytes.IndexByte(b, '\t') != -1
+	for i := 0; i < len(b) && !dirty; i++ {
+		if b[i] == ';' {
+			j := i + 1
+			for j < len(b) && b[j] == ' ' {
+				j++
+			}
+			dirty = j == len(b) || b[j] == ';'
+		}
+	}
+	if !dirty {
 		return b
 	}
-	out := append([]byte(nil), b...)
+	out := make([]byte, 0, len(b))
 	quoted := false
-	for i := 0; i < len(out); i++ {
+	for i := 0; i < len(b); i++ {
+		c := b[i]
 		switch {
-		case quoted && out[i] == '\\':
+		case quoted && c == '\\' && i+1 < len(b):
+			out = append(out, c, b[i+1])
 			i++
-		case out[i] == '"':
+			continue
+		case c == '"':
 			quoted = !quoted
-		case out[i] == '\t' && !quoted:
-			out[i] = ' '
+		case quoted:
+		case c == '\t':
+			c = ' '
+		case c == ';':
+			j := i + 1
+			for j < len(b) && (b[j] == ' ' || b[j] == '\t') {
+				j++
+			}
+			if j == len(b) || b[j] == ';' {
+				continue // an empty parameter
+			}
 		}
+		out = append(out, c)
 	}
 	return out
 }
@@ -474,7 +499,7 @@ func getOffer(header []byte, isAccepted func(spec, offer string, specParams head
 				for k := range params {
 					delete(params, k)
 				}
-				fasthttp.VisitHeaderParams(spacesForTabs(accept[i:]), func(key, value []byte) bool {
+				fasthttp.VisitHeaderParams(cleanParams(accept[i:]), func(key, value []byte) bool {
 					// the weight's name is case-insensitive like every parameter name
 					if len(key) == 1 && (key[0] == 'q' || key[0] == 'Q') {
 						if q, err := fasthttp.ParseUfloat(value); err == nil {
